@@ -1421,16 +1421,16 @@ func liveCases(seed int64, n int) []LiveCase {
 		cs = append(cs, c)
 	}
 	cs = cs[:n]
-	if h.IsKnownFor("C12", liveStormSig) {
-		// search behind the listed finding: every fourth transaction scenario uses replacement attempts
-		k := 0
-		for i := range cs {
-			if cs[i].Txs {
-				if k%4 == 1 {
-					cs[i].SameNonce = true
-				}
-				k++
+	// every other transaction scenario also re-uses the nonces of still pending transactions
+	// (replacement attempts): a transaction that a pool takes, drops and announces anyway is
+	// bounced between the nodes for ever (recorded, repaired finding: known_findings.json C19/C12)
+	k := 0
+	for i := range cs {
+		if cs[i].Txs {
+			if k%2 == 1 {
+				cs[i].SameNonce = true
 			}
+			k++
 		}
 	}
 	return cs
